@@ -1,7 +1,8 @@
 -------------------------------- MODULE Reads --------------------------------
 (***************************************************************************)
 (* C06, reader level - REQUIREMENT.  Several feeds, each with its own      *)
-(* storage holding equally named tables; the storages differ in content    *)
+(* storage holding equally named tables (or: one database in which every   *)
+(* feed has a physical table of its own); the storages differ in content   *)
 (* and change over time; the reading process may be restarted while the    *)
 (* ForML home directory is kept.                                           *)
 (*   Read(f, s)   reading statement s through feed f returns exactly what  *)
@@ -51,6 +52,9 @@ FeedsAB == <<"f1", "f2">>
 FeedsM == <<"m1", "m2">>
 FeedsMixed == <<"f1", "m1">>
 FeedsFM == <<"f1", "m1", "m2">>
+\* two SQL feeds over ONE database (same connection) provisioning the same schema from two physical tables: the
+\* storage of a feed is its own table - nothing else changes in the requirement
+FeedsST == <<"t1", "t2">>
 NoFeeds == {}
 AllStmts == DOMAIN Stmts
 NoLits == [k \in {"0", "15", "35"} |-> CASE k = "15" -> 15 [] k = "35" -> 35 [] OTHER -> 0]
